@@ -336,3 +336,54 @@ theorem started_initCfg (init : List Act) (handlers : List (Cls × HRef × Optio
     (stdin : List Str) : Started (initCfg init handlers quitCb stdin) := ⟨_, _, _, _, rfl⟩
 
 end Simpleline
+
+namespace Simpleline
+
+/-! ### on the trace alone: what is drawn is the top of the recorded stack -/
+
+/-- in a trace (newest first), every drawn entry is the top of the stack recorded by the newest stack
+operation before the draw -/
+def DrawnTop : List Tr → Prop
+  | [] => True
+  | .show e :: l => (lastStack l).getLast? = some e ∧ DrawnTop l
+  | _ :: l => DrawnTop l
+
+theorem lastStack_schedTr (l : List Tr) : lastStack (schedTr l) = lastStack l := by
+  induction l with
+  | nil => rfl
+  | cons t l ih => cases t <;> simp [lastStack, ih]
+
+theorem DrawnTop_append_right {a b : List Tr} (h : DrawnTop (a ++ b)) : DrawnTop b := by
+  induction a with
+  | nil => exact h
+  | cons t a ih =>
+    cases t <;> simp only [List.cons_append, DrawnTop] at h <;> first | exact ih h | exact ih h.2
+
+theorem DrawnTop_step {P : Prog} {c0 c : Cfg} (h0 : Started c0) (hr : Reach P c0 c) (h : DrawnTop (schedTr c.tr)) :
+    DrawnTop (schedTr (outCfg (step P c)).tr) := by
+  rw [(step_stack P c).2]
+  rcases schedEvs_cases c with h' | ⟨top, rest, _, h'⟩ | ⟨top, rest, hc, h'⟩ | ⟨w, s, h'⟩ <;> rw [h']
+  · exact h
+  · exact h
+  · refine ⟨?_, h⟩
+    show (lastStack (schedTr c.tr)).getLast? = some top
+    rw [lastStack_schedTr, ← stack_eq_lastStack h0 hr]
+    exact (hr.headInv h0).draw top (by simp [hc])
+  · exact h
+
+theorem Reach.drawnTop {P : Prog} {c0 c : Cfg} (h0 : Started c0) (h : Reach P c0 c) : DrawnTop (schedTr c.tr) := by
+  refine h.induct (I := fun c => DrawnTop (schedTr c.tr)) ?_ (fun _ hr hI => DrawnTop_step h0 hr hI)
+    (fun _ _ hI => by simpa using hI)
+  obtain ⟨init, handlers, quitCb, stdin, rfl⟩ := h0
+  simp [initCfg, DrawnTop]
+
+theorem drawn_is_recorded_top {P : Prog} {c0 c : Cfg} (h0 : Started c0) (hr : Reach P c0 c) {e : Entry}
+    {l1 l2 : List Tr} (h : c.tr = l1 ++ .show e :: l2) : (lastStack l2).getLast? = some e := by
+  have hs := hr.drawnTop h0
+  rw [h, schedTr_append] at hs
+  have := DrawnTop_append_right hs
+  simp only [schedTr_cons, Tr.isSched_show, if_true, DrawnTop] at this
+  rw [← lastStack_schedTr]
+  exact this.1
+
+end Simpleline
